@@ -53,7 +53,12 @@ def main():
         if (lib.VERIF / "tools" / "translate.py").exists():
             ok, out = lib.translate()
             if not ok:
-                broken.append(("translator", "tools/translate.py", out[-800:]))
+                stale = lib.failed_gen_files(out)
+                mine = None if stale is None else sorted(set(stale) & lib.lean_imports(modules))
+                if mine is None or mine:
+                    broken.append(("translator", "tools/translate.py" + ("" if not mine else " (" + ", ".join(mine) + ")"), out[-800:]))
+                else:
+                    notes.append("a translator step failed for Gen files this property does not import: " + ", ".join(stale))
         ok, out = lib.lake_build(["exetera_model"])
         if not ok:
             driver_ok = False
